@@ -97,6 +97,9 @@ func dfs(name string, procc *runtime.Script, sPath *searchPath, p *param) error 
 	}
 
 	if _, ok := p.retMap[name]; ok {
+		// already resolved: it has to leave the search path again, a second
+		// reference to it (repeated call, diamond) is not a cycle
+		sPath.Pop()
 		return nil
 	}
 
